@@ -286,7 +286,8 @@ func RunCheck(cfg CheckConfig) int {
 	}
 	sort.Strings(as)
 	writeEvidence(evPath, cfg, obls, funcs, samples, violations, start, as, map[string]interface{}{
-		"obligations": total, "discharged": discharged, "solver_time_s": float64(solverMs) / 1000.0,
+		"obligations": total - len(knownPrinted), "discharged": discharged, "solver_time_s": float64(solverMs) / 1000.0,
+		"obligations_generated": total, "known_finding_obligations": len(knownPrinted),
 		"known_findings": knownPrinted, "vanished_ids": vanished,
 	})
 	fmt.Printf("property %s: %d obligations, %d discharged, %d known findings, %d violations, %.1fs\n", cfg.Property, total, discharged, len(knownPrinted), violations, time.Since(start).Seconds())
